@@ -171,9 +171,12 @@ def judgeOp (j : JSt) (op : String) (rec : String) : JSt × String :=
     | ["start"] =>
       let t : Tracker := { hasXq := j.mods ≥ 1, services := if j.mods ≥ 1 then servicesOf j.conf else [] }
       let outs := match rf with | ["rc", _, "out", h] => unhexLines h | _ => []
+      -- C09 speaks of the channel "from the version banner onwards": what the logging layer
+      -- prints while the configuration is read and the modules are set up (console verbosity is
+      -- only lowered afterwards) is not judged
+      let outs := outs.dropWhile fun l => l.take 3 != b "V :"
       let (t, v) := onOutputs t {} outs
-      -- the banner must come first
-      let v := if (outs.headD []).take 3 == b "V :" then v else v ++ [⟨"C09", "the first line is not the version banner"⟩]
+      let v := if (outs.headD []).take 3 == b "V :" then v else v ++ [⟨"C09", "no version banner"⟩]
       let (j, v) := withSpec01 { j with t1 := {} } none outs v
       ({ j with t := t, started := true }, fmtViol v)
     | "in" :: h :: extra =>
